@@ -37,6 +37,16 @@ Proof.
 Qed.
 Print Assumptions C15_bound_configured.
 
+(* The collector is unobservable: for every history with non-decreasing timestamps the decisions taken for any
+   subnet are the decisions taken on the same arrivals when the collector never runs ([filter not_gc h]): forgetting an
+   idle, completely refilled entry loses nothing. *)
+Theorem C15_gc_unobservable : forall (o : opts) (k : lim_addr) (h : list lev),
+  0 < o_limit o -> 0 <= o_burst o -> lim_sorted h = true ->
+  lim_decisions_for o k h (lim_decisions o [] h) =
+  lim_decisions_for o k (filter not_gc h) (lim_decisions o [] (filter not_gc h)).
+Proof. exact gc_unobservable. Qed.
+Print Assumptions C15_gc_unobservable.
+
 (* Non-vacuity of the bound across collector runs, on the parameters of the former finding K3 (rate 1, burst 1000 >
    60 * rate): the history  spend 1000 at t = 0, collector at 60.000000001 s, ask 1000 again  contains a collector
    run, the entry survives it (only 60 of 1000 tokens have refilled), the second arrival is refused exactly as
